@@ -3,5 +3,6 @@ pub mod fault;
 pub mod fixture;
 pub mod grammar;
 pub mod hist;
+pub mod maxrow;
 pub mod sched;
 pub mod urgency;
